@@ -13,7 +13,8 @@ import warnings
 
 import numpy
 
-MAX_STORED_VIOLATIONS = 40
+MAX_STORED_VIOLATIONS = 80
+MAX_STORED_PER_MECH = 10
 MAX_SAMPLES = 4
 
 
@@ -103,7 +104,8 @@ class Obs:
         self.comparisons += 1
         self.violation_count += 1
         self.mech_counts[mech or 'unclassified'] += 1
-        if len(self.violations) < MAX_STORED_VIOLATIONS:
+        # per-mechanism cap: a frequent (possibly known) mechanism must not crowd out the witnesses of a rare one
+        if self.mech_counts[mech or 'unclassified'] <= MAX_STORED_PER_MECH and len(self.violations) < MAX_STORED_VIOLATIONS:
             self.violations.append({
                 'property': self.prop, 'what': what, 'mech': mech,
                 'detail': jsonable(detail), 'case': jsonable(self._case),
